@@ -4,6 +4,7 @@ import (
 	"errors"
 	"net"
 	"strings"
+	"sync"
 )
 
 type Socks struct {
@@ -12,6 +13,11 @@ type Socks struct {
 	handler  func(s *Socks, conn net.Conn)
 	Failed   bool
 	Clients  []int32
+
+	/* guards listener, Clients and closed: the accept loop, the connection
+	 * handlers and the operator commands run on different goroutines */
+	mtx    sync.Mutex
+	closed bool
 }
 
 func NewSocks(addr string) *Socks {
@@ -32,10 +38,11 @@ func (s *Socks) SetHandler(handler func(s *Socks, conn net.Conn)) {
 
 }
 
-func (s *Socks) Start() error {
+/* Listen binds the address. After it returned nil the server can be closed at any time. */
+func (s *Socks) Listen() error {
 	var (
-		err error
-		con net.Conn
+		err      error
+		listener net.Listener
 	)
 
 	if s.handler == nil {
@@ -43,14 +50,43 @@ func (s *Socks) Start() error {
 	}
 
 	/* listen on the specified addr */
-	if s.listener, err = net.Listen("tcp", s.addr); err != nil {
+	if listener, err = net.Listen("tcp", s.addr); err != nil {
 		return err
+	}
+
+	s.mtx.Lock()
+	defer s.mtx.Unlock()
+
+	if s.closed {
+		listener.Close()
+		return errors.New("socks server has been closed")
+	}
+
+	s.listener = listener
+
+	return nil
+}
+
+/* Serve accepts connections until the server is closed */
+func (s *Socks) Serve() error {
+	var (
+		err      error
+		con      net.Conn
+		listener net.Listener
+	)
+
+	s.mtx.Lock()
+	listener = s.listener
+	s.mtx.Unlock()
+
+	if listener == nil {
+		return errors.New("socks server is not listening")
 	}
 
 	for {
 
 		/* accepts any new connections */
-		if con, err = s.listener.Accept(); err != nil {
+		if con, err = listener.Accept(); err != nil {
 			return err
 		}
 
@@ -59,10 +95,48 @@ func (s *Socks) Start() error {
 	}
 }
 
-func (s *Socks) Close() {
-
-	if s.listener != nil {
-		s.listener.Close()
+func (s *Socks) Start() error {
+	if err := s.Listen(); err != nil {
+		return err
 	}
 
+	return s.Serve()
+}
+
+func (s *Socks) Close() {
+	var listener net.Listener
+
+	s.mtx.Lock()
+	s.closed = true
+	listener = s.listener
+	s.mtx.Unlock()
+
+	if listener != nil {
+		listener.Close()
+	}
+
+}
+
+/* AddClient registers the socket id of a client of this proxy.
+ * It returns false if the proxy has already been closed: whoever closed it
+ * can no longer see this client, so the caller has to drop it. */
+func (s *Socks) AddClient(SocketID int32) bool {
+	s.mtx.Lock()
+	defer s.mtx.Unlock()
+
+	if s.closed {
+		return false
+	}
+
+	s.Clients = append(s.Clients, SocketID)
+
+	return true
+}
+
+/* ClientIDs returns the socket ids registered so far */
+func (s *Socks) ClientIDs() []int32 {
+	s.mtx.Lock()
+	defer s.mtx.Unlock()
+
+	return append([]int32(nil), s.Clients...)
 }
